@@ -6,6 +6,7 @@ def explore(run, lean):
     n = 1500 if run.tier == "quick" else 20000
     hsm_corr.explore(run, "C22", n, hosts=("plain", "instr", "queued"))
     hsm_corr.explore_literal_depths(run, "C22")
+    hsm_corr.explore_raising_query(run, 80 if run.tier == "quick" else 1500)
     run.extra["rule"] = ("random charts (1-14 states, 40%% deep chains) on plain / instrumented / queued hosts, spied and un-spied; "
                          "non-trivial = the script contains an operation the property speaks about; distinct by canonical JSON")
     ROUND6_RULE = "; queries whose argument is a like-named function that is not a state of this chart (another build of the design, another chart's top)"
